@@ -10,6 +10,7 @@ import Omaha.Drv.Response
 import Omaha.Drv.Uri
 import Omaha.Drv.SM
 import Omaha.Drv.Gen
+import Omaha.Drv.Mock
 
 open Omaha Omaha.Drv
 
@@ -23,6 +24,7 @@ def handleLine (line : String) : String :=
   | "uri" :: rest => handleUri rest
   | "sm" :: rest => handleSM rest
   | "gen" :: rest => handleGen rest
+  | "mock" :: rest => handleMock rest
   -- the implementation compared with itself under storage failures: the model's answer is what
   -- `storage_failures_invisible_history` (Props/C14) proves, for every history
   | "smfault" :: _ => "same"
